@@ -351,6 +351,38 @@ impl<S: WebSocket, T: TimestampProvider> Task<S, T> {
         Some(future.await)
     }
 
+    /// Wait for our `Sink` (`step`) without turning our back on the `Source`: what arrives
+    /// meanwhile is dispatched as usual. The peer's `Ping`s get their `Pong`, so that its
+    /// keepalive does not take us for dead while we are busy flushing, and its `Sink` is
+    /// relieved, so that two endpoints which both have a backlog to flush do not wait for each
+    /// other forever. `source_open` turns `false` once the peer has nothing more to say.
+    async fn while_reading<F: Future>(&self, step: F, source_open: &mut bool) -> F::Output {
+        let step = step.fuse();
+        futures_util::pin_mut!(step);
+        loop {
+            let open = *source_open;
+            let next = async {
+                if open {
+                    poll_fn(|cx| self.ws.lock().poll_next_unpin(cx)).await
+                } else {
+                    core::future::pending().await
+                }
+            }
+            .fuse();
+            futures_util::pin_mut!(next);
+            futures_util::select_biased! {
+                r = step => return r,
+                msg = next => match msg {
+                    Some(Ok(msg)) => {
+                        debug!("processing message while flushing {msg:?}");
+                        self.process_message(msg, true).await.ok();
+                    }
+                    Some(Err(_)) | None => *source_open = false,
+                },
+            }
+        }
+    }
+
     /// Wind down the multiplexor task.
     #[tracing::instrument(skip_all, level = "trace")]
     async fn wind_down(
@@ -381,32 +413,46 @@ impl<S: WebSocket, T: TimestampProvider> Task<S, T> {
         // If it is `false`, then we reached here because the peer is now not interested
         // in our connection anymore, and we should just mind our own business and serve the connections
         // on our end.
+        // Whether the peer may still send us something
+        let mut source_open = true;
         if should_drain_msg_rx {
             // Since we've called `close` on `tx_frame_rx`, this loop will
             // terminate once existing frames are processed.
             while let Some(message) = tx_msg_rx.recv().await {
                 debug!("sending remaining frame after mux drop");
-                let Some(r) = self
-                    .peer_patience(poll_fn(|cx| self.ws.lock().poll_ready_unpin(cx)))
-                    .await
-                else {
-                    warn!("Peer stopped taking our frames after mux drop");
-                    connection_broken = true;
-                    break;
+                // One frame at a time all the way through the `Sink`, as in normal operation:
+                // the patience below is meant for one frame, not for everything a buffering
+                // `Sink` would otherwise have to push out in one go when it is closed.
+                let send_one = async {
+                    poll_fn(|cx| self.ws.lock().poll_ready_unpin(cx)).await?;
+                    self.ws.lock().start_send_unpin(message)?;
+                    poll_fn(|cx| self.ws.lock().poll_flush_unpin(cx)).await
                 };
-                if let Err(e) = r.and_then(|()| self.ws.lock().start_send_unpin(message)) {
-                    warn!("Failed to send remaining frame after mux drop: {e}");
-                    // Don't keep trying to send frames after an error
-                    break;
+                match self
+                    .peer_patience(self.while_reading(send_one, &mut source_open))
+                    .await
+                {
+                    None => {
+                        warn!("Peer stopped taking our frames after mux drop");
+                        connection_broken = true;
+                        break;
+                    }
+                    Some(Err(e)) => {
+                        warn!("Failed to send remaining frame after mux drop: {e}");
+                        // Don't keep trying to send frames after an error
+                        break;
+                    }
+                    Some(Ok(())) => (),
                 }
-                // will be flushed in `ws.close()` anyways
-                // ws.flush().await.ok();
             }
         }
         // This will flush the remaining frames already queued for sending as well
         if !connection_broken
             && self
-                .peer_patience(poll_fn(|cx| self.ws.lock().poll_close_unpin(cx)))
+                .peer_patience(self.while_reading(
+                    poll_fn(|cx| self.ws.lock().poll_close_unpin(cx)),
+                    &mut source_open,
+                ))
                 .await
                 .is_none()
         {
@@ -435,9 +481,10 @@ impl<S: WebSocket, T: TimestampProvider> Task<S, T> {
             // The peer is expected to answer our `Close` and end its side. We no longer send
             // `Ping`s, but it can die now as well as before: each message may take as long as
             // a `Pong` was allowed to.
-            while let Some(Some(Ok(msg))) = self
-                .peer_patience(poll_fn(|cx| self.ws.lock().poll_next_unpin(cx)))
-                .await
+            while source_open
+                && let Some(Some(Ok(msg))) = self
+                    .peer_patience(poll_fn(|cx| self.ws.lock().poll_next_unpin(cx)))
+                    .await
             {
                 debug!("processing remaining message after closure {msg:?}");
                 self.process_message(msg, true).await.ok();
